@@ -655,6 +655,11 @@ func (e *FEnc) load(st *State, p *Ptr) *Val {
 		return e.project(&Val{Ty: p.Elem, Sort: e.sortOf(p.Elem), T: t}, p.Path)
 	case rGlobal:
 		ty := p.Elem
+		if gv, ok := p.Global.Object().(*types.Var); ok && len(p.Path) == 0 {
+			if cv, ok := e.eng.globalInit(gv); ok {
+				return e.constToVal(cv, ty)
+			}
+		}
 		nm := "G_" + mangle(p.Global.String())
 		e.d.add("c:"+nm, fmt.Sprintf("(declare-const %s %s)", nm, e.sortOf(ty)))
 		e.typeFacts(nm, ty, 0)
@@ -998,7 +1003,7 @@ func (e *FEnc) run() {
 	}
 	e.computeExposed()
 	order := e.rpo()
-	st := &State{reach: "true", cells: map[int]*Val{}, heap: map[string]string{}, epoch: 0, leaked: map[int]bool{}, pub: map[int]*Val{}}
+	st := &State{reach: "true", cells: map[int]*Val{}, heap: map[string]string{}, epoch: 0, leaked: map[int]bool{}, pub: map[int]*Val{}, called: map[string]string{}}
 	// parameters
 	for _, p := range fn.Params {
 		v := e.newVal(p.Type(), "p_"+mangle(p.Name()))
@@ -1290,6 +1295,38 @@ func (e *FEnc) mergeStates(b *ssa.BasicBlock, es []inEdge) (*State, []string) {
 			st.leaked[k] = true
 		}
 	}
+	st.called = map[string]string{}
+	{
+		names := map[string]bool{}
+		for _, ed := range es {
+			for k := range ed.state.called {
+				names[k] = true
+			}
+		}
+		for _, k := range sortedKeys(names) {
+			var ts []string
+			same := true
+			for _, ed := range es {
+				t, ok := ed.state.called[k]
+				if !ok {
+					t = "false"
+				}
+				ts = append(ts, t)
+				if t != ts[0] {
+					same = false
+				}
+			}
+			if same {
+				st.called[k] = ts[0]
+				continue
+			}
+			m := e.fresh("called", "Bool")
+			for i := range es {
+				e.fact(implies(conds[i], eq(m, ts[i])))
+			}
+			st.called[k] = m
+		}
+	}
 	st.pub = map[int]*Val{}
 	for id, v := range es[0].state.pub {
 		same := true
@@ -1448,6 +1485,19 @@ func (e *FEnc) enterBlock(b *ssa.BasicBlock) *State {
 	}
 	if callsOrHeap {
 		e.havocHeap(hs)
+	}
+	for bb := range li.body {
+		for _, in := range bb.Instrs {
+			if ci, ok := in.(ssa.CallInstruction); ok {
+				nm := calleeName(ci.Common())
+				if _, tracked := hs.called[nm]; tracked || true {
+					if hs.called == nil {
+						hs.called = map[string]string{}
+					}
+					hs.called[nm] = e.fresh("called", "Bool")
+				}
+			}
+		}
 	}
 	e.publishExposed(hs)
 	for _, c := range li.invs {
